@@ -29,9 +29,11 @@ C = dict(
         src("mem4", "Packer_PlanMem4.cfg", P(10, 50, 2, BIG), ["quick", "thorough"], cap={"quick": 1500}),
         src("all3", "Packer_PlanAll3.cfg", P(3, 1, 2, 1), ["quick", "thorough"], cap={"quick": 1200}),
         src("cnt4", "Packer_PlanCnt4.cfg", P(2, 1, 1024, BIG), ["thorough"]),
-        src("cnt5", "Packer_PlanCnt5.cfg", P(2, 1, 1024, BIG), ["thorough"], cap={"thorough": 30000}),
-        src("mem5", "Packer_PlanMem5.cfg", P(10, 50, 2, BIG), ["thorough"], cap={"thorough": 30000}),
+        src("cnt5", "Packer_PlanCnt5.cfg", P(2, 1, 1024, BIG), ["thorough"], cap={"thorough": 20000}),
+        src("mem5", "Packer_PlanMem5.cfg", P(10, 50, 2, BIG), ["thorough"], cap={"thorough": 20000}),
         src("all4", "Packer_PlanAll4.cfg", P(3, 1, 2, 1), ["thorough"], cap={"thorough": 12000}),
+        src("one4", "Packer_PlanOne4.cfg", P(1, 1, 1024, BIG), ["quick", "thorough"], cap={"quick": 800, "thorough": 15000}),
+        src("def4", "Packer_PlanDef4.cfg", P(0, 0, 0, 0), ["quick", "thorough"], cap={"quick": 600}),
         dict(name="sim", module="Packer", cfg="Packer_PlanSim.cfg", simulate={"quick": 20, "thorough": 400},
              depth=14, params=P(3, 1, 3, 1), cap={"quick": 300, "thorough": 6000}),
         dict(name="sim2", module="Packer", cfg="Packer_PlanSim2.cfg", simulate={"quick": 20, "thorough": 400},
